@@ -27,6 +27,16 @@ CHECKS = {
   "Executes, for limits N in a small range, messages of N-2..N+2 and 3N octets via DATA (plain and dot-stuffed) and via every composition into up to three BDAT chunks, with several backend read sizes and declared SIZE values; the recording reader's octet count and terminal error, the reply codes and a second execution of the same case without limit are compared.",
   "Backend honours the contract of returning the reader's error; SIZE beyond 32 bits left to C11/C14.",
   "DESIGN.md section 5 C06"),
+ "C07": ("fault_enumeration",
+  "runtime monitoring with crash-point enumeration: connection cut / read error injected at every octet offset of a conversation corpus; recording reader's terminal error and reply stream judged",
+  "For a corpus of 27 DATA/BDAT conversations (SMTP, LMTP, LMTP per-recipient) the client stream is cut after every octet offset with three failure kinds (clean close, timeout-flavoured and reset-flavoured read error) and two segmentations, plus every abandoning command between chunks; the monitor requires a non-EOF terminal error at the backend's reader and no positive reply for every message whose end marker / LAST chunk was not received in full, and EOF only with the full reference content. Exhaustive over the offsets of the corpus, nothing beyond it.",
+  "Cuts that only remove the CRLF of a zero-size 'BDAT 0 LAST' command line are not judged (all message octets were delivered); partial command lines at EOF are not judged.",
+  "DESIGN.md section 5 C07"),
+ "C08": ("fault_enumeration",
+  "runtime monitoring: session-lifecycle automaton over the backend event log under cut-point enumeration and server-initiated closes with buffered suffixes; goroutine-table leak check",
+  "Every octet offset of 30 conversations (incl. AUTH exchanges) and of a STARTTLS conversation (plaintext part and inner TLS part) is used as a disconnect point with three failure kinds; five server-initiated close reasons (QUIT, error threshold, over-long line, idle timeout via a virtual deadline, backend panic) are combined with every command suffix of length <=2 already buffered behind the closing command, with ReadTimeout 0 and set, SMTP and LMTP, at default GOMAXPROCS and 1. A session-lifecycle automaton over the recorded callbacks checks exactly-one Logout per session, no callback after Logout, nothing executed after the closing reply; at the end of the run no goroutine with a go-smtp frame may remain.",
+  "Known finding C08:data-begins-after-logout (zero-octet transfer aborted before the delivery goroutine entered Data) is matched narrowly; leak check is global per run, not per case.",
+  "DESIGN.md section 5 C08"),
 }
 
 NOT_APPLICABLE = {
